@@ -10,8 +10,9 @@
               `persist_entries` (append each record, `last := max(last, max index of the batch)` — before /repo 1dcc2fa
               it was the max of the batch alone, F19), `truncate`/`replace_range`
               (`set_len(end_pos_before(from))`, drop keys ≥ from, `last := greatest key`), `purge` (`set_len(0)`, rewrite
-              the kept entries, `sync_all`; `last` untouched; no boundary stored), `reset`, `flush`, `load_from_file`
-              (last record of an index wins, `last := greatest index read`), `load_purge_boundary` = None (trait default).
+              the kept entries, `sync_all`, then the cutoff is written to `purge_boundary.bin`; `last` untouched), `reset`, `flush`, `load_from_file`
+              (last record of an index wins, `last := greatest index read`), `load_purge_boundary` = content of
+              `purge_boundary.bin` (kept by `reset`, like RocksDB keeps its boundary key).
               Offsets are in records: exact as long as all records have the same byte length (the `store` generator
               keeps index, term < 128 and a 1-byte payload) and no `set_len` *extends* the file; a state in which a stale
               offset extended the file is flagged `hole` for the rest of the run (observed as `unmodelled` on both sides).
@@ -94,9 +95,11 @@ structure FileStore where
   last : Nat
   dur : List Ent
   hole : Bool                    -- a stale offset extended the file: bytes matter from here on (not modelled)
+  boundary : Option (Nat × Nat)  -- content of `purge_boundary.bin` (since /repo aab5543; before: never stored, F26)
 deriving Repr, DecidableEq
 
-def FileStore.empty : FileStore := { entries := [], recs := [], endPos := [], last := 0, dur := [], hole := false }
+def FileStore.empty : FileStore :=
+  { entries := [], recs := [], endPos := [], last := 0, dur := [], hole := false, boundary := none }
 
 def posInsert : List (Nat × Nat) → Nat × Nat → List (Nat × Nat)
   | [], e => [e]
@@ -142,13 +145,13 @@ def FileStore.step (s : FileStore) : Op → FileStore
   | .replace f es =>
     let s1 := es.foldl FileStore.append (s.cut f)
     { s1 with last := maxKey s1.entries }
-  | .purge i _ =>
+  | .purge i t =>
     let keep := above s.entries i
-    { s with recs := keep, dur := keep, endPos := enumFrom1 keep, entries := keep }
+    { s with recs := keep, dur := keep, endPos := enumFrom1 keep, entries := keep, boundary := some (i, t) }
   | .reset => { s with recs := [], entries := [], endPos := [], last := 0 }
   | .flush => { s with dur := s.recs }
-  | .reopen => { loadRecs s.recs with dur := s.recs, hole := s.hole }
-  | .crash => { loadRecs s.recs with dur := s.dur, hole := s.hole }
+  | .reopen => { loadRecs s.recs with dur := s.recs, hole := s.hole, boundary := s.boundary }
+  | .crash => { loadRecs s.recs with dur := s.dur, hole := s.hole, boundary := s.boundary }
 
 /-- Crash points *inside* one op: (hook name, records of `log.data` at that point), in order. -/
 def appendPoints (name : String) (recs : List Ent) (es : List Ent) : List (String × List Ent) :=
